@@ -50,7 +50,7 @@ const c03MaxPCR = uint64(1)<<33*300 - 1
 
 func genC03Op(t *rapid.T, a *ref.AF) OpC03 {
 	afLen := a.Len
-	kinds := []string{"disc", "ra", "esp", "hasPCR", "hasOPCR", "hasSplice", "hasTPD", "hasExt", "hasTPD", "hasExt", "pcr", "opcr", "splice", "tpd", "ext", "tpd", "ext", "copyAF"}
+	kinds := []string{"disc", "ra", "esp", "hasPCR", "hasOPCR", "hasSplice", "hasTPD", "hasExt", "hasTPD", "hasExt", "pcr", "opcr", "splice", "tpd", "ext", "tpd", "ext", "copyAF", "copyOwnAF"}
 	o := OpC03{Kind: rapid.SampledFrom(kinds).Draw(t, "op")}
 	switch o.Kind {
 	case "disc", "ra", "esp", "hasPCR", "hasOPCR", "hasSplice", "hasTPD", "hasExt":
@@ -254,6 +254,8 @@ func c03Apply(a *ref.AF, o OpC03) (na *ref.AF, wantErr bool, undefined string, s
 		src.Len = a.Len
 		sizeChange = src.Content() != a.Content()
 		na = src
+	case "copyOwnAF":
+		// the packet's own adaptation field handed back to it: every logical value stays what it is
 	default:
 		panic("harness: unknown op " + o.Kind)
 	}
@@ -304,6 +306,12 @@ func c03Call(p *packet.Packet, o OpC03) error {
 			return errC03ArgWritten
 		}
 		return err
+	case "copyOwnAF":
+		own, err := p.AdaptationField()
+		if err != nil {
+			return err
+		}
+		return p.SetAdaptationField(own)
 	case "copyAF":
 		var sp packet.Packet
 		copy(sp[:], o.Src)
@@ -565,7 +573,7 @@ func checkC03(c CaseC03, x *hx.Ctx) *hx.Failure {
 var propC03 = hx.Register(hx.Prop[CaseC03]{ID: "C03", Gen: genC03, Check: checkC03})
 
 func c03Rule() {
-	hx.Rec("C03").SetRule("cases: a well-formed packet with a non-empty adaptation field (af_len 1..182 next to a payload, 183 alone; af_len biased to 1,2,7,8,13,14,20,181,182; any fitting subset of optional fields) + a history of up to 60 (on average 15) setter calls (three flag setters, five presence toggles in both polarities incl. repeats, SetPCR/SetOPCR with any value < 2^33*300, SetSpliceCountdown, SetTransportPrivateData/SetAdaptationFieldExtension with lengths biased to 0, exactly-fits and one-too-many, SetAdaptationField from another generated packet). After every step all 188 bytes are compared with the reference serialisation of the model and every getter of both APIs with the model; refused calls must leave the packet byte-identical; calls that fit must succeed. Enumerated: all toggle histories of length <= 3 from 8 af_len values x 32 initial flag subsets. Non-trivial: >= 1 size-changing success and >= 1 of {refused call, removal of a non-empty variable field, repeated toggle, fill to exactly af_len, successful copy of a whole field}.",
+	hx.Rec("C03").SetRule("cases: a well-formed packet with a non-empty adaptation field (af_len 1..182 next to a payload, 183 alone; af_len biased to 1,2,7,8,13,14,20,181,182; any fitting subset of optional fields) + a history of up to 60 (on average 15) setter calls (three flag setters, five presence toggles in both polarities incl. repeats, SetPCR/SetOPCR with any value < 2^33*300, SetSpliceCountdown, SetTransportPrivateData/SetAdaptationFieldExtension with lengths biased to 0, exactly-fits and one-too-many, SetAdaptationField from another generated packet or with the packet's own adaptation field). After every step all 188 bytes are compared with the reference serialisation of the model and every getter of both APIs with the model; refused calls must leave the packet byte-identical; calls that fit must succeed. Enumerated: all toggle histories of length <= 3 from 8 af_len values x 32 initial flag subsets. Non-trivial: >= 1 size-changing success and >= 1 of {refused call, removal of a non-empty variable field, repeated toggle, fill to exactly af_len, successful copy of a whole field}.",
 		"only the non-nil-ness of errors is asserted, not which sentinel",
 		"adaptation-field-only packets have af_len 183; the source of SetAdaptationField is a well-formed packet with a non-empty field",
 		"a PCR/OPCR/splice field that became present without receiving a value has no defined contents (re-read from the packet)")
